@@ -33,7 +33,10 @@ CONSTANTS
   \* value oracle: EvalAccept(p, sol, par, vec, fn, sig, args, cb, ret) -- is ret an acceptable result
   \* of the provided evaluator <<fn,sig>> of solution sol with current parameter values par, vec at
   \* args?  (bounded instances: an uninterpreted term; trace specification: the numeric oracle)
-  EvalAccept(_,_,_,_,_,_,_,_,_)
+  EvalAccept(_,_,_,_,_,_,_,_,_),
+  \* ArgsRegular(sol, fn, sig, args): the arguments are regular for this overload (e.g. a gradient
+  \* direction inside 1..dimension); only then is a finite result demanded at default parameters
+  ArgsRegular(_,_,_,_)
 
 VARIABLES
   reg,     \* [Prec -> [registered handles -> Instance]]
@@ -295,7 +298,7 @@ Eval(p, api, fn, sig, args, cb, o) ==
      /\ UNCHANGED <<reg, sel, live, status, dflt>>     \* never changes a parameter (C10, C15)
      /\ IF Provides(inst.sol, fn, sig)
         THEN /\ o.ret # Sentinel(p)                    \* C14
-             /\ o.fin
+             /\ (inst = Fresh(inst.sol) /\ ArgsRegular(inst.sol, fn, sig, args)) => o.fin   \* C14: finite at defaults
              /\ EvalAccept(p, inst.sol, [k \in DOMAIN inst.par |-> ParVal(p, inst, k)],
                            [k \in DOMAIN inst.vec |-> VecVal(p, inst, k)], fn, sig, args, cb, o.ret)
              /\ IF UseMemo
